@@ -16,7 +16,7 @@ from ..hworld import HWorld
 
 ID = "C05"
 LEVEL = "fault_enumeration"
-RUNS = {"quick": 700, "thorough": 12000}
+RUNS = {"quick": 2000, "thorough": 12000}
 RULE = (
     "each run: seeded prior history (direct ops, earlier committed/aborted batches, reopen; prune on/off; lru-cache "
     "knob), one target squash_changes batch of k = 0..8 operations, and a seeded suffix of operations and lookups. "
